@@ -170,10 +170,23 @@ def _check_normal_equations(rep, f, site, v, lv):
         pos = [k for k, c in terms.items() if c == 1][0]
         if neg != B_TXT:
             return False, "the offset subtracted is %s, expected calc_vecB()" % neg
-        want_f = "np.vstack([%s[1] for %s in %s]).flatten()"
-        import re
-        m = re.fullmatch(r"np\.vstack\(\[(\w+)\[1\] for (\w+) in (\w+)\]\)\.flatten\(\)", pos)
-        if not m or m.group(1) != m.group(2) or m.group(3) != lv:
+        # the data vector: the distributions (element [1] of every pair of the current dataset) stacked in order, flattened row-major
+        try:
+            pe = ast.parse(pos, mode="eval").body
+        except SyntaxError:
+            return False, "data vector is %s, expected the stacked distributions of the current dataset" % pos
+        order, base = _flat(pe)
+        stack = base if order == "C" else pe
+        ok_stack = isinstance(stack, ast.Call) and (dotted(stack.func) or "").split(".")[-1] in ("vstack", "hstack", "concatenate", "array") and stack.args \
+            and isinstance(stack.args[0], (ast.ListComp, ast.GeneratorExp)) and len(stack.args[0].generators) == 1
+        if ok_stack and (dotted(stack.func) or "").split(".")[-1] in ("vstack", "array") and order != "C":
+            ok_stack = False
+        if not ok_stack:
+            return False, "data vector is %s, expected the stacked distributions of the current dataset" % pos
+        comp = stack.args[0]
+        g = comp.generators[0]
+        elt_ok = isinstance(comp.elt, ast.Subscript) and isinstance(g.target, ast.Name) and unparse(comp.elt.value) == g.target.id and is_num(comp.elt.slice, 1)
+        if not elt_ok or unparse(g.iter) != lv or g.ifs:
             return False, "data vector is %s, expected the stacked distributions of the current dataset" % pos
         return True, ""
 
@@ -194,6 +207,19 @@ def _check_normal_equations(rep, f, site, v, lv):
         rep.violation("L1", f, site, why, node=site)
     else:
         rep.undecided("L1", f, site, why)
+
+
+def _flat(e):
+    """('C'|'F'|None, base) for x.flatten() / x.ravel() / x.reshape(-1)"""
+    if isinstance(e, ast.Call) and isinstance(e.func, ast.Attribute):
+        a = e.func.attr
+        if a in ("flatten", "ravel") and not e.args and not e.keywords:
+            return "C", e.func.value
+        if a in ("flatten", "ravel") and len(e.args) == 1 and isinstance(e.args[0], ast.Constant) and e.args[0].value in ("C", "F"):
+            return e.args[0].value, e.func.value
+        if a == "reshape" and len(e.args) == 1 and not e.keywords and is_num(e.args[0], -1):
+            return "C", e.func.value
+    return None, e
 
 
 # ------------------------------------------------------------------------------ single = sequence of one
